@@ -54,7 +54,7 @@ ELEMENT = [
 ]
 
 UNIT = Unit(
-    name='opt_scala', props=['C04', 'C07'], pre_verus=O.PRE_VERUS, spec_files=['std_slices.rs', 'typexpr.rs', 'txt.rs', 'optmark.rs'], prelude=PRELUDE,
+    name='opt_scala', props=['C04', 'C07'], pre_verus=O.PRE_VERUS, spec_files=['std_slices.rs', 'seqjoin.rs', 'typexpr.rs', 'txt.rs', 'optmark.rs'], prelude=PRELUDE,
     items=O.base_items('Scala', SRC) + [
         Item('write_element', SRC, ['impl Scala {', 'fn write_element'], ELEMENT, wrap=('impl Scala {\n', '\n}\n'),
              auto=('fmt', 'strlit', 'then_some', 'map_err_q')),
